@@ -53,6 +53,9 @@ func StartTLS(cfg *tls.Config) StreamFeature {
 			d := xml.NewTokenDecoder(r)
 
 			// If no TLSConfig was specified, use a default config.
+			// The default depends on the session, so it must not be stored in the
+			// feature (which may be shared between sessions).
+			cfg := cfg
 			if cfg == nil {
 				cfg = &tls.Config{
 					ServerName: session.LocalAddr().Domain().String(),
